@@ -178,6 +178,27 @@ def run(ctx: Ctx) -> None:
                     ctx.fail("R13.4", ex, c, f"with mp=True tasks are multiprocessing.Process objects, but the channel '{a.id}' passed as '{p}' is a thread-local "
                                              "queue.Queue: an exception put by a worker process never reaches the parent, so a CRC error is lost and the damaged output is kept",
                              construct=f"Process task with queue.Queue channel {a.id}")
+                elif a.id in ex.params:
+                    # a parameter of Worker.extract: what do the callers pass?
+                    passed = []
+                    for g, call in shared.calls_to(ctx, ex.qname):
+                        v = next((k.value for k in call.keywords if k.arg == a.id), None)
+                        if v is None:
+                            bound = ex.params[1:]
+                            idx = bound.index(a.id)
+                            v = call.args[idx] if idx < len(call.args) else None
+                        if v is not None:
+                            passed.append((g, v))
+                    local_q = False
+                    for g, v in passed:
+                        ty = ctx.res.infer(v, g)
+                        if any(t[0] == "ext" and t[1] in ("queue.Queue", "queue.SimpleQueue") for t in ty):
+                            local_q = True
+                    if local_q:
+                        ctx.fail("R13.4", ex, c, f"with mp=True tasks are multiprocessing.Process objects, but '{a.id}' (passed as '{p}') is the session's thread-local queue.Queue: "
+                                                 "progress events put by worker processes never reach the reporter", construct=f"Process task with queue.Queue channel {a.id}")
+                    else:
+                        ctx.ok("R13.4", f"arg {p}={norm(a)} is not a process-local queue")
                 else:
                     ctx.ok("R13.4", f"arg {p}={norm(a)} is not a process-local queue")
             # results registry written by workers is irrelevant for Process only if outputs are files; noted
